@@ -712,6 +712,11 @@ func (c *Candidates) IsDelegatorStakeAllowed(address types.Address, pubkey types
 
 	newTotalStakes := big.NewInt(0).Add(c.totalStakes, diff)
 
+	// a candidate without any bip stake cannot be "too big" (and must not be divided by)
+	if newTotalStake.Sign() == 0 {
+		return false, false
+	}
+
 	if big.NewInt(0).Div(newTotalStakes, newTotalStake).Cmp(big.NewInt(5)) == -1 {
 		return false, true
 	}
